@@ -121,7 +121,44 @@ def vd_inquire(c, a):
     name = create_string_buffer(256)
     L.VSinquire(vs, byref(n), byref(il), fields, byref(sz), name)
     ok = fields.value == fnames(c.v["schema"]) and n.value == L.VSelts(vs) and sz.value == L.VSsizeof(vs, fields.value)
-    return {"nrec": n.value if ok else -99, "il": il.value, "nfields": L.VFnfields(vs), "recsize": sz.value}
+    return {"nrec": n.value if ok else -99, "il": il.value, "nfields": L.VFnfields(vs), "recsize": sz.value,
+            "agree": _vs_views_agree(c, vs, il.value)}
+
+
+def _vs_views_agree(c, vs, il):
+    """the per-field queries describe the same schema: names, positions, types, orders, sizes, existence"""
+    L = c.L
+    L.VFfieldname.restype = ctypes.c_char_p
+    sc = c.v["schema"]
+    why = []
+    if L.VSgetinterlace(vs) != il:
+        why.append("VSgetinterlace")
+    tot = 0
+    for i, (sz, order) in enumerate(sc):
+        nm = b"f%d" % (i + 1)
+        idx = c_int32(-1)
+        if L.VSfindex(vs, nm, byref(idx)) == FAIL or idx.value != i:
+            why.append("VSfindex(%s) = %d" % (nm.decode(), idx.value))
+        if L.VFfieldname(vs, i) != nm:
+            why.append("VFfieldname(%d)" % i)
+        if L.VFfieldtype(vs, i) != TYPE_OF_SIZE[sz][0] or L.VFfieldorder(vs, i) != order:
+            why.append("VFfieldtype/order(%d)" % i)
+        if L.VFfieldisize(vs, i) != sz * order or L.VFfieldesize(vs, i) != sz * order:
+            why.append("VFfieldisize/esize(%d) = %d/%d" % (i, L.VFfieldisize(vs, i), L.VFfieldesize(vs, i)))
+        if L.VSfexist(vs, nm) == FAIL:
+            why.append("VSfexist(%s)" % nm.decode())
+        tot += sz * order
+    if L.VSfexist(vs, b"nosuchfield") != FAIL:
+        why.append("VSfexist(nosuchfield) succeeds")
+    if L.VSfexist(vs, fnames(sc)) == FAIL:
+        why.append("VSfexist(all fields)")
+    if L.VSsizeof(vs, fnames(sc)) != tot:
+        why.append("VSsizeof(all) = %d, sum of fields %d" % (L.VSsizeof(vs, fnames(sc)), tot))
+    if L.VSgetversion(vs) != 3 and L.VSgetversion(vs) != 4:
+        why.append("VSgetversion = %d" % L.VSgetversion(vs))
+    if why:
+        c.v["why"] = why
+    return not why
 
 
 @op("VData", "Fpack")
@@ -381,7 +418,44 @@ def vg_info(c, a):
     cb = create_string_buffer(cl.value + 1)
     L.Vgetclass(h, cb)
     n, mem = _members(c, h)
-    return {"name": vg_unname(nb.value), "class": vg_unname(cb.value), "mem": mem, "n": n}
+    return {"name": vg_unname(nb.value), "class": vg_unname(cb.value), "mem": mem, "n": n, "agree": _vg_views_agree(c, h, n)}
+
+
+def _vg_views_agree(c, h, n):
+    """the other ways of asking for the same member list: one member at a time (Vgettagref), per-tag counts (Vnrefs),
+    the entry count by reference number (Ventries)"""
+    L = c.L
+    why = []
+    if n > 0:
+        tags, refs = h4api.i32arr([0] * n), h4api.i32arr([0] * n)
+        got = L.Vgettagrefs(h, tags, refs, n)
+        bulk = [(tags[i], refs[i]) for i in range(max(got, 0))]
+        one = []
+        t, r = c_int32(0), c_int32(0)
+        for i in range(n):
+            if L.Vgettagref(h, i, byref(t), byref(r)) == FAIL:
+                why.append("Vgettagref(%d) failed" % i)
+                break
+            one.append((t.value, r.value))
+        if one != bulk:
+            why.append("Vgettagref one by one differs from Vgettagrefs")
+        for tg in sorted(set(x[0] for x in bulk)):
+            if L.Vnrefs(h, tg) != sum(1 for x in bulk if x[0] == tg):
+                why.append("Vnrefs(tag %d) = %d" % (tg, L.Vnrefs(h, tg)))
+        # a request for fewer members returns the first ones
+        if n > 1:
+            t2, r2 = h4api.i32arr([0] * (n - 1)), h4api.i32arr([0] * (n - 1))
+            g2 = L.Vgettagrefs(h, t2, r2, n - 1)
+            if g2 != n - 1 or [(t2[i], r2[i]) for i in range(n - 1)] != bulk[:n - 1]:
+                why.append("Vgettagrefs(n-1) is not the first n-1 members")
+    ref = L.VQueryref(h)
+    if L.Vntagrefs(h) != n:
+        why.append("Vntagrefs changed")
+    if c.v.get("vg_saved", {}).get(ref) == n and L.Ventries(c.h["F"], ref) != n:
+        why.append("Ventries = %d, members = %d" % (L.Ventries(c.h["F"], ref), n))
+    if why:
+        c.v["why"] = why
+    return not why
 
 
 @op("VGroup", "Inq")
